@@ -8,11 +8,15 @@ run_in_executor run unmodified on it.  There is no selector: the controller (hv.
 import asyncio
 import gc
 import heapq
+import re
 import sys
 import threading
 from asyncio import events
 
 from hv.vtime import CLOCK
+
+
+_ADDR = re.compile(r"0x[0-9a-f]{6,16}")
 
 
 class Livelock(Exception):
@@ -41,7 +45,7 @@ class VLoop(asyncio.BaseEventLoop):
     def _on_exception(self, loop, context) -> None:
         entry = {
             "message": context.get("message"),
-            "exception": repr(context.get("exception")) if context.get("exception") else None,
+            "exception": _ADDR.sub("0x..", repr(context.get("exception"))) if context.get("exception") else None,
         }
         self.exc_log.append(entry)
 
